@@ -661,7 +661,7 @@ func kwpCraft(r *hx.Rng, kek, data []byte) string {
 	aiv := make([]byte, 8)
 	binary.BigEndian.PutUint32(aiv, 0xA65959A6)
 	mli := uint32(n)
-	switch k := r.Intn(8); {
+	switch k := r.Intn(9); {
 	case k == 0 && pad > 0:
 		body[n+r.Intn(pad)] = byte(1 + r.Intn(255))
 	case k == 1 && pad > 0:
@@ -686,6 +686,16 @@ func kwpCraft(r *hx.Rng, kek, data []byte) string {
 		mli = hx.PickS(r, []uint32{0, 0xffffffff, 0xfffffff8, 0x80000000 + uint32(n), 1 << 16})
 	case k == 6:
 		body[len(body)-1] ^= 0x80
+	case k == 7:
+		// one or more whole blocks of zero "padding": length field too small by >= 8
+		m := n - 8 - r.Intn(8)
+		if r.Chance(30) {
+			m = r.Intn(n - 8)
+		}
+		mli = uint32(m)
+		for i := m; i < len(body); i++ {
+			body[i] = 0
+		}
 	}
 	binary.BigEndian.PutUint32(aiv[4:], mli)
 	return "raw:" + hx.H(refW(kek, aiv, body))
